@@ -140,15 +140,38 @@ func pubOracle(o *hdref.Oracle, f hdkeychain.VerifFields) []byte {
 	return f.Key
 }
 
+// reference version bytes: the constants of bchd's chaincfg/params.go (hdref.KnownHDVersions), not the variables of the
+// linked package, which code of the repository under test could rewrite (round 3)
+func vprivOf(net int) []byte { return append([]byte{}, hdref.KnownHDVersions[net].Priv[:]...) }
+func vpubOf(net int) []byte  { return append([]byte{}, hdref.KnownHDVersions[net].Pub[:]...) }
+
+func checkLinkedNets() {
+	for i, n := range nets {
+		known := hdref.KnownHDVersions[i]
+		pub, err := chaincfg.HDPrivateKeyToPublicKeyID(known.Priv[:])
+		rep.Count("linked_net_ids", n.Name, true)
+		if n.HDPrivateKeyID != known.Priv || n.HDPublicKeyID != known.Pub || err != nil || !bytes.Equal(pub, known.Pub[:]) {
+			rep.Violate("C04:nets:version_ids", "with the repository's packages linked, a registered network's HD version identifiers are not the ones chaincfg declares (written by an init function / package-level initialiser of the repository)",
+				map[string]interface{}{"net": n.Name, "net_index": i, "linked_private_id": vh.Hex(n.HDPrivateKeyID[:]), "linked_public_id": vh.Hex(n.HDPublicKeyID[:]),
+					"declared_private_id": vh.Hex(known.Priv[:]), "declared_public_id": vh.Hex(known.Pub[:]), "HDPrivateKeyToPublicKeyID(declared_private_id)": fmt.Sprintf("%x %v", pub, err)})
+		}
+	}
+}
+
 // ---------------------------------------------------------------- monitors
 type ctx struct {
-	seed []byte
-	net  int
-	path []uint32
+	seed     []byte
+	net      int
+	path     []uint32
+	explicit *explicitKey // the walk starts from an explicitly given extended private key instead of a seed (round 3)
 }
 
 func (c ctx) replay(extra map[string]interface{}) map[string]interface{} {
 	m := map[string]interface{}{"seed": vh.Hex(c.seed), "net": nets[c.net].Name, "net_index": c.net, "path": pathStr(c.path), "path_indices": c.path}
+	if c.explicit != nil {
+		m["explicit_key"] = c.explicit
+		m["seed"] = "(none: the walk starts from explicit_key = an extended private key (k, c) given by its fields)"
+	}
 	for k, v := range extra {
 		m[k] = v
 	}
@@ -223,6 +246,47 @@ func observe(c ctx, k *hdkeychain.ExtendedKey, n *hdref.Node, version []byte, wh
 			break
 		}
 	}
+	// "forall registered networks": the SAME object is associated with every one of the six networks in turn (SetNet),
+	// printed, neutered and the neutered key printed, chipnet included, and finally set back; each string must be the
+	// BIP32 serialisation under the version bytes chaincfg DECLARES for that network (constants, hdref.KnownHDVersions)
+	// (round 3: a rewritten version identifier of one network shows only on keys of that network)
+	isKnown := bytes.Equal(version, vprivOf(c.net)) || bytes.Equal(version, vpubOf(c.net))
+	if isKnown {
+		perm := addrOrders[(int(f.ChildNum%5)+int(f.Depth)+c.net)%6]
+		var visited []string
+		for d := 0; d <= len(nets); d++ {
+			b := c.net // last: back to the key's own network
+			if d < len(nets) {
+				b = perm[d]
+			}
+			k.SetNet(nets[b])
+			visited = append(visited, nets[b].Name)
+			ver := vpubOf(b)
+			if n.K != nil {
+				ver = vprivOf(b)
+			}
+			if s, want := k.String(), hdref.String(nil, n, ver); s != want {
+				rep.Violate("C04:string:conforms", "after SetNet(net) String() is not the BIP32 serialisation of the node under the version bytes chaincfg declares for that network",
+					c.replay(map[string]interface{}{"node": what, "setnet_sweep_on_this_object": visited, "this_net": nets[b].Name, "impl": s, "bip32": want}))
+				break
+			}
+			if n.K == nil {
+				continue
+			}
+			nk, nerr := k.Neuter()
+			if nerr != nil {
+				rep.Violate("C04:neuter:conforms", "Neuter failed on a key associated (SetNet) with a registered network",
+					c.replay(map[string]interface{}{"node": what, "setnet_sweep_on_this_object": visited, "this_net": nets[b].Name, "err": fmt.Sprint(nerr)}))
+				break
+			}
+			if s, want := nk.String(), hdref.String(nil, hdref.Neuter(n), vpubOf(b)); s != want {
+				rep.Violate("C04:neuter:conforms", "after SetNet(net) the neutered key does not print as N((k,c)) under the public version bytes chaincfg declares for that network",
+					c.replay(map[string]interface{}{"node": what, "setnet_sweep_on_this_object": visited, "this_net": nets[b].Name, "impl": s, "bip32": want}))
+				break
+			}
+		}
+		k.SetNet(nets[c.net])
+	}
 	pk, err := k.ECPubKey()
 	if err != nil || pk.X.Cmp(n.P.X) != 0 || pk.Y.Cmp(n.P.Y) != 0 {
 		rep.Violate("C04:ecpub", "ECPubKey() is not the reference public point", c.replay(map[string]interface{}{"node": what, "err": fmt.Sprint(err)}))
@@ -255,7 +319,7 @@ func walk(seed []byte, net int, path []uint32, opt walkOpt) {
 	c := ctx{seed: seed, net: net}
 	po := hdref.NewOracle() // oracle of the Path case
 	po.RecordDSha = opt.shaOracle
-	vpriv, vpub := nets[net].HDPrivateKeyID[:], nets[net].HDPublicKeyID[:]
+	vpriv, vpub := vprivOf(net), vpubOf(net)
 
 	var k *hdkeychain.ExtendedKey
 	var err error
@@ -296,14 +360,44 @@ func walk(seed []byte, net int, path []uint32, opt walkOpt) {
 	observe(c, k, n, vpriv, "master")
 	rep.Sample(map[string]interface{}{"seed": vh.Hex(seed), "net": nets[net].Name, "path": pathStr(path), "master": k.String()}, 4)
 
+	var ok bool
+	if k, n, ok = descend(&c, k, n, path, opt, po, vpriv, vpub); !ok {
+		return
+	}
+	if opt.pathCase {
+		// the whole derivation inside the model: NewMaster; Child ...; String; Neuter; String; Address
+		s := k.String()
+		nk, _ := k.Neuter()
+		ns := nk.String()
+		hdref.String(po, n, vpriv)
+		hdref.String(po, hdref.Neuter(n), vpub)
+		id := hdref.Identifier(po, n)
+		addr, aerr := k.Address(nets[net])
+		var h []byte
+		if aerr == nil {
+			h = addr.Hash160()[:]
+		}
+		_ = id
+		cases.Add(fmt.Sprintf("Path %s %s %d %s %s %s %s %s", po.Coq(), vh.CoqBytes(seed), net, coqPath(path), coqRes(k, nil), vh.CoqStr(s), vh.CoqStr(ns), vh.CoqBytes(h)),
+			map[string]interface{}{"op": "NewMaster;Child...;String;Neuter;String;Address", "seed": vh.Hex(seed), "net": nets[net].Name, "path": pathStr(path), "impl_string": s, "impl_neutered_string": ns})
+	}
+}
+
+// descend derives path below the key k (reference node n) privately and, along the non-hardened steps, publicly, with
+// all monitors; it returns the last key / node, or ok = false when the walk had to stop.
+func descend(cp *ctx, k *hdkeychain.ExtendedKey, n *hdref.Node, path []uint32, opt walkOpt, po *hdref.Oracle, vpriv, vpub []byte) (*hdkeychain.ExtendedKey, *hdref.Node, bool) {
+	c := *cp
+	base := append([]uint32{}, c.path...)
+	var err error
+	defer func() { *cp = c }()
 	for step, i := range path {
-		c.path = path[:step+1]
+		c.path = append(append([]uint32{}, base...), path[:step+1]...)
 		par, parNode := k, n
 		parF := par.VerifFields()
 		var ch *hdkeychain.ExtendedKey
 		if p, msg := vh.Catch(func() { ch, err = par.Child(i) }); p {
 			rep.Violate("C04:panic", "Child panicked", c.replay(map[string]interface{}{"panic": msg}))
-			return
+			return nil, nil, false
 		}
 		rep.Count("child_priv", "cp"+vh.Hex(parF.Key)+vh.Hex(parF.ChainCode)+fmt.Sprint(i), true)
 		rep.Histogram["index_"+idxBucket(i)]++
@@ -313,29 +407,29 @@ func walk(seed []byte, net int, path []uint32, opt walkOpt) {
 			}
 			cases.Add(fmt.Sprintf("Child no_oracle %s %d %s", coqKey(parF), i, coqRes(ch, err)),
 				map[string]interface{}{"op": "Child(depth 255)", "parent": descKey(parF), "index": i, "impl_class": errClass(err)})
-			return
+			return nil, nil, false
 		}
 		co := hdref.NewOracle()
 		cn, cst, gap := hdref.CKDpriv(co, parNode, i)
 		hdref.CKDpriv(po, parNode, i)
 		if gap.ILZero || gap.ChildZero {
 			gapsSeen++ // needs an HMAC-SHA512 preimage; recorded, excluded from the conformance monitor (DESIGN C04)
-			return
+			return nil, nil, false
 		}
 		if cst != hdref.Valid {
 			if err != hdkeychain.ErrInvalidChild {
 				rep.Violate("C04:child:priv_conforms", "Child accepted an index the BIP marks invalid", c.replay(nil))
 			}
-			return
+			return nil, nil, false
 		}
 		if err != nil {
 			rep.Violate("C04:child:priv_conforms", "Child refused a valid index", c.replay(map[string]interface{}{"err": fmt.Sprint(err)}))
-			return
+			return nil, nil, false
 		}
 		if d := conforms(ch, cn, vpriv); d != "" {
 			rep.Violate("C04:child:priv_conforms", "private Child differs from CKDpriv in: "+d,
 				c.replay(map[string]interface{}{"parent": descKey(parF), "index": i, "impl": descKey(ch.VerifFields())}))
-			return // everything below this node would differ as a consequence
+			return nil, nil, false // everything below this node would differ as a consequence
 		}
 		if cn.K.BitLen() <= 248 {
 			rep.Histogram["child_scalar_leading_zero_byte"]++
@@ -346,7 +440,7 @@ func walk(seed []byte, net int, path []uint32, opt walkOpt) {
 		if opt.childEvery > 0 && (step%opt.childEvery == 0 || cn.K.BitLen() <= 248 || parNode.K.BitLen() <= 248) {
 			childOracle(co, parF, i)
 			cases.Add(fmt.Sprintf("Child %s %s %d %s", co.Coq(), coqKey(parF), i, coqRes(ch, err)),
-				map[string]interface{}{"op": "Child", "seed": vh.Hex(seed), "path": pathStr(c.path), "parent": descKey(parF), "index": i, "impl": descKey(ch.VerifFields())})
+				map[string]interface{}{"op": "Child", "seed": vh.Hex(c.seed), "path": pathStr(c.path), "parent": descKey(parF), "index": i, "impl": descKey(ch.VerifFields())})
 		}
 		observe(c, ch, cn, vpriv, "priv")
 
@@ -355,7 +449,7 @@ func walk(seed []byte, net int, path []uint32, opt walkOpt) {
 		nc, nerr2 := ch.Neuter()
 		if nerr != nil || nerr2 != nil {
 			rep.Violate("C04:neuter:conforms", "Neuter failed on a key of a registered network", c.replay(map[string]interface{}{"err": fmt.Sprint(nerr, nerr2)}))
-			return
+			return nil, nil, false
 		}
 		if d := conforms(nc, hdref.Neuter(cn), vpub); d != "" {
 			rep.Violate("C04:neuter:conforms", "Neuter differs from N((k,c)) in: "+d, c.replay(nil))
@@ -391,7 +485,7 @@ func walk(seed []byte, net int, path []uint32, opt walkOpt) {
 				if opt.childEvery > 0 && step%opt.childEvery == 0 {
 					childOracle(qo, np.VerifFields(), i)
 					cases.Add(fmt.Sprintf("Child %s %s %d %s", qo.Coq(), coqKey(np.VerifFields()), i, coqRes(pc, perr)),
-						map[string]interface{}{"op": "Child(public)", "seed": vh.Hex(seed), "path": pathStr(c.path), "parent": descKey(np.VerifFields()), "index": i})
+						map[string]interface{}{"op": "Child(public)", "seed": vh.Hex(c.seed), "path": pathStr(c.path), "parent": descKey(np.VerifFields()), "index": i})
 				}
 			}
 		}
@@ -401,23 +495,238 @@ func walk(seed []byte, net int, path []uint32, opt walkOpt) {
 		}
 		k, n = ch, cn
 	}
-	if opt.pathCase {
-		// the whole derivation inside the model: NewMaster; Child ...; String; Neuter; String; Address
-		s := k.String()
-		nk, _ := k.Neuter()
-		ns := nk.String()
-		hdref.String(po, n, vpriv)
-		hdref.String(po, hdref.Neuter(n), vpub)
-		id := hdref.Identifier(po, n)
-		addr, aerr := k.Address(nets[net])
-		var h []byte
-		if aerr == nil {
-			h = addr.Hash160()[:]
-		}
-		_ = id
-		cases.Add(fmt.Sprintf("Path %s %s %d %s %s %s %s %s", po.Coq(), vh.CoqBytes(seed), net, coqPath(path), coqRes(k, nil), vh.CoqStr(s), vh.CoqStr(ns), vh.CoqBytes(h)),
-			map[string]interface{}{"op": "NewMaster;Child...;String;Neuter;String;Address", "seed": vh.Hex(seed), "net": nets[net].Name, "path": pathStr(path), "impl_string": s, "impl_neutered_string": ns})
+	return k, n, true
+}
+
+// ---------------------------------------------------------------- walks from an EXPLICIT extended private key (round 3)
+// explicitKey is an extended private key (k, c) with its serialisation metadata, given by its bytes: BIP32's CKDpriv /
+// CKDpub / N / serialisation are defined for every such key, and choosing the bytes reaches corners that derivation from
+// seeds reaches with probability 2^-24 and less: scalars with 3..31 leading zero bytes, chain codes of zeros, and
+// serialisations whose base-58 digit string has aligned all-zero groups (constructed, hdref.ZeroRunPayload).
+type explicitKey struct {
+	Key      string `json:"key"`        // 32 bytes, hex
+	Chain    string `json:"chain_code"` // 32 bytes, hex
+	FP       string `json:"parent_fingerprint"`
+	Depth    uint8  `json:"depth"`
+	ChildNum uint32 `json:"child_number"`
+	Via      string `json:"made_by"` // "NewKeyFromString(reference serialisation)" or "NewExtendedKey(fields)"
+	Why      string `json:"why,omitempty"`
+}
+
+const viaString, viaFields = "NewKeyFromString(reference serialisation)", "NewExtendedKey(fields)"
+
+func explicitWalk(e explicitKey, net int, path []uint32, opt walkOpt) {
+	key, _ := hex.DecodeString(e.Key)
+	cc, _ := hex.DecodeString(e.Chain)
+	fp, _ := hex.DecodeString(e.FP)
+	kn := new(big.Int).SetBytes(key)
+	if len(key) != 32 || len(cc) != 32 || len(fp) != 4 || kn.Sign() == 0 || kn.Cmp(hdref.N) >= 0 {
+		return
 	}
+	c := ctx{net: net, explicit: &e}
+	vpriv, vpub := vprivOf(net), vpubOf(net)
+	n := &hdref.Node{K: kn, P: (*hdref.Oracle)(nil).Mul(kn), C: cc, Depth: int(e.Depth), FP: fp, Index: e.ChildNum}
+	want := hdref.String(nil, n, vpriv)
+	var k *hdkeychain.ExtendedKey
+	var err error
+	rep.Count("explicit_key", "ek"+want+e.Via, true)
+	if e.Via == viaFields {
+		k = hdkeychain.NewExtendedKey(vprivOf(net), append([]byte{}, key...), append([]byte{}, cc...), append([]byte{}, fp...), e.Depth, e.ChildNum, true)
+	} else {
+		if p, msg := vh.Catch(func() { k, err = hdkeychain.NewKeyFromString(want) }); p {
+			rep.Violate("C04:panic", "NewKeyFromString panicked on the BIP32 serialisation of an extended private key", c.replay(map[string]interface{}{"panic": msg, "bip32": want}))
+			return
+		}
+		if err != nil {
+			rep.Violate("C04:string:conforms", "the BIP32 serialisation of an extended private key (scalar in [1, n-1]) is refused by NewKeyFromString", c.replay(map[string]interface{}{"bip32": want, "err": fmt.Sprint(err)}))
+			return
+		}
+	}
+	if d := conforms(k, n, vpriv); d != "" {
+		rep.Violate("C04:string:conforms", "an extended private key given by its bytes is not held as that key: "+d, c.replay(map[string]interface{}{"bip32": want}))
+		return
+	}
+	observe(c, k, n, vpriv, "explicit key")
+	if opt.childEvery > 0 {
+		nodeCases(k, true, "explicit key: "+e.Why)
+	}
+	// in-memory vs re-parsed: the same descent from the object and from the object parsed back from ITS OWN string
+	descend(&c, k, n, path, opt, nil, vpriv, vpub)
+	if p2, err := hdkeychain.NewKeyFromString(k.String()); err == nil {
+		c2 := ctx{net: net, explicit: &e}
+		descend(&c2, p2, n, path, walkOpt{}, nil, vpriv, vpub)
+	}
+}
+
+// explicitFamily: the fixed and random explicit keys of one run.
+func explicitFamily(r *vh.RNG, rounds int, corr bool) {
+	g := func() uint32 { return uint32(r.Intn(1000)) }
+	paths := func() [][]uint32 {
+		return [][]uint32{{H + g()}, {g()}, {H + g(), H + g()}, {g(), H + g()}}
+	}
+	emit := func(key, cc []byte, why string, t int) {
+		for vi, via := range []string{viaString, viaFields} {
+			e := explicitKey{Key: vh.Hex(key), Chain: vh.Hex(cc), FP: vh.Hex(r.Bytes(4)), Depth: uint8(r.Intn(255)), ChildNum: r.U32(), Via: via, Why: why}
+			for pi, p := range paths() {
+				o := walkOpt{}
+				if corr && vi == 0 && pi == t%4 && t%3 == 0 {
+					o = walkOpt{childEvery: 1}
+				}
+				explicitWalk(e, (t+pi)%len(nets), p, o)
+			}
+		}
+	}
+	t := 0
+	for round := 0; round < rounds; round++ {
+		// scalars with z leading zero bytes, z = 1 .. 31
+		for _, z := range []int{1, 2, 3, 3, 4, 5, 6, 8, 12, 16, 24, 28, 31} {
+			key := append(make([]byte, z), r.Bytes(32-z)...)
+			key[z] |= 1 // exactly z leading zero bytes
+			emit(key, r.Bytes(32), fmt.Sprintf("private scalar with %d leading zero bytes", z), t)
+			t++
+		}
+		// boundary scalars
+		nm := func(d int64) []byte { return hdref.Ser256(new(big.Int).Sub(hdref.N, big.NewInt(d))) }
+		for _, key := range [][]byte{hdref.Ser256(big.NewInt(1)), hdref.Ser256(big.NewInt(2)), hdref.Ser256(big.NewInt(0x10000)), nm(1), nm(2),
+			hdref.Ser256(new(big.Int).Lsh(big.NewInt(1), 255)), hdref.Ser256(new(big.Int).Lsh(big.NewInt(1), 232))} {
+			emit(key, r.Bytes(32), "boundary scalar", t)
+			t++
+		}
+		// chain codes of zeros / with leading zero bytes / all 0xff
+		sc := r.Bytes(32)
+		sc[0] &= 0x7f
+		sc[31] |= 1
+		for _, cc := range [][]byte{make([]byte, 32), append(make([]byte, 5), r.Bytes(27)...), bytes.Repeat([]byte{0xff}, 32), append(r.Bytes(29), 0, 0, 0)} {
+			emit(sc, cc, "chain code with zero / 0xff bytes", t)
+			t++
+		}
+	}
+}
+
+// zeroGroupFamily: explicit keys whose serialisation has aligned all-zero base-58 digit groups (5 / 10 digits, every
+// position from digit 10 to digit 105), constructed arithmetically; String() of the key, of its children, and the
+// derivation below it are compared with the reference.
+func zeroGroupFamily(r *vh.RNG, rounds int, widths []int, corr bool) {
+	built, failed := 0, 0
+	for round := 0; round < rounds; round++ {
+		for lo := 10; lo <= 100; lo += 5 {
+			for _, w := range widths {
+				hi := lo + w
+				if hi > 105 {
+					continue
+				}
+				net := (lo/5 + w + round) % len(nets)
+				sc := r.Bytes(32)
+				sc[0] &= 0x7f
+				sc[31] |= 1
+				base := append(append(append(append(vprivOf(net), byte(r.Intn(256))), r.Bytes(4)...), hdref.Ser32(r.U32())...), r.Bytes(32)...)
+				base = append(append(base, 0), sc...)
+				var p []byte
+				ok := false
+				for try := 0; try < 8 && !ok; try++ {
+					p, ok = hdref.ZeroRunPayload(base, r.Bytes, lo, hi)
+					ok = ok && bytes.Equal(p[:4], vprivOf(net))
+				}
+				if !ok {
+					failed++
+					continue
+				}
+				kn := new(big.Int).SetBytes(p[46:78])
+				n := &hdref.Node{K: kn, P: (*hdref.Oracle)(nil).Mul(kn), C: p[13:45], Depth: int(p[4]), FP: p[5:9], Index: binary.BigEndian.Uint32(p[9:13])}
+				if !hdref.HasZeroRun(hdref.String(nil, n, vprivOf(net)), lo, hi) {
+					failed++
+					continue
+				}
+				built++
+				rep.Histogram["explicit_keys_with_zero_digit_group"]++
+				for vi, via := range []string{viaFields, viaString} {
+					e := explicitKey{Key: vh.Hex(p[46:78]), Chain: vh.Hex(p[13:45]), FP: vh.Hex(p[5:9]), Depth: p[4], ChildNum: n.Index, Via: via,
+						Why: fmt.Sprintf("base-58 digits %d..%d of the serialisation on %s (counted from the end of the string) are all '1'", lo, hi-1, nets[net].Name)}
+					o := walkOpt{}
+					if corr && vi == 0 && round == 0 && (lo/5)%4 == 0 && w == widths[0] {
+						o = walkOpt{childEvery: 1, nodeAt: 1}
+					}
+					explicitWalk(e, net, []uint32{H + uint32(r.Intn(100)), uint32(r.Intn(100))}, o)
+				}
+			}
+		}
+	}
+	rep.Extra["explicit_keys_with_zero_digit_group"] = map[string]int{"constructed": built, "construction_failed": failed}
+}
+
+// ---------------------------------------------------------------- children with THREE or more leading zero bytes (round 3)
+// lz3 lists children (of the masters of fixed seeds) whose private scalar has at least three leading zero bytes, found
+// once with the reference arithmetic by cmd/c04/lzscan (2^-24 per index: about 1.7e7 HMACs each) and kept here so that the
+// quick tier does not search.  vectors() of the reference (BIP32 test vectors) guards the reference; each entry is
+// re-checked against the reference before use.
+type lz3Entry struct {
+	seed  string
+	index uint32
+	zeros int
+}
+
+var lz3 = []lz3Entry{
+	{"000102030405060708090a0b0c0d0e0f", 2150775374, 3},                                                                                                 // child scalar 0000004f7e0a2c1cefcce976200851fc9000b13a6009910a826c37a2da71c57a
+	{"000102030405060708090a0b0c0d0e0f", 28672661, 3},                                                                                                   // child scalar 000000edbfa290d7071ed6c7e716f7c62da07d86a643aba0ae786045bc569a01
+	{"433034206368696c6472656e2077697468207468726565206c656164696e67207a65726f206279746573", 2148998315, 3},                                             // child scalar 00000019d7b4e0d19ee85fbce65559fdf7a151ed88f6a5f6aef0fb4e4dda89f3
+	{"433034206368696c6472656e2077697468207468726565206c656164696e67207a65726f206279746573", 2339335, 3},                                                // child scalar 0000005340fcee22eacf818c38210690be279168013c1bd130f923cdb476de7e
+	{"fffcf9f6f3f0edeae7e4e1dedbd8d5d2cfccc9c6c3c0bdbab7b4b1aeaba8a5a29f9c999693908d8a8784817e7b7875726f6c696663605d5a5754514e4b484542", 2154588353, 3}, // child scalar 0000007430d8b8ce9eaa0f87df4685e3435ce081231f11f5a0922e8aa86f953c
+	{"fffcf9f6f3f0edeae7e4e1dedbd8d5d2cfccc9c6c3c0bdbab7b4b1aeaba8a5a29f9c999693908d8a8784817e7b7875726f6c696663605d5a5754514e4b484542", 11155245, 3},   // child scalar 000000149496c202b0a481fee3a9e6f35194d7b5cbd16d39ce6b5016ac50022a
+}
+
+// scanLeadingZero looks, in parallel, for the smallest index >= start (hardened or not) whose child scalar has at most
+// `bits` bits, trying at most max indices.
+func scanLeadingZero(par *hdref.Node, hardened bool, start uint32, bits int, max int) (uint32, bool) {
+	const chunk = 1 << 16
+	workers := 8
+	for off := 0; off < max; off += chunk * workers {
+		res := make([]int64, workers)
+		done := make(chan int, workers)
+		for w := 0; w < workers; w++ {
+			go func(w int) {
+				res[w] = -1
+				for t := 0; t < chunk; t++ {
+					q := off + w*chunk + t
+					if q >= max {
+						break
+					}
+					i := (start + uint32(q)) & 0x7fffffff
+					if hardened {
+						i |= H
+					}
+					if sc, st, _ := hdref.CKDprivNoPoint(par, i); st == hdref.Valid && sc.BitLen() <= bits {
+						res[w] = int64(i)
+						break
+					}
+				}
+				done <- w
+			}(w)
+		}
+		for w := 0; w < workers; w++ {
+			<-done
+		}
+		for w := 0; w < workers; w++ {
+			if res[w] >= 0 {
+				return uint32(res[w]), true
+			}
+		}
+	}
+	return 0, false
+}
+
+// lz3Walks: below a child with >= 3 leading zero bytes: hardened and normal grandchildren (and one more level) from the
+// in-memory object (walk) and from the object parsed back from its string (parsedWalk), all against the reference.
+func lz3Walks(seed []byte, net int, prefix []uint32, i uint32, r *vh.RNG, corr bool) {
+	at := append(append([]uint32{}, prefix...), i)
+	for gi, tail := range [][]uint32{{H + uint32(r.Intn(1000)), H + uint32(r.Intn(1000))}, {uint32(r.Intn(1000)), H + uint32(r.Intn(1000))}, {H, 0}} {
+		o := walkOpt{}
+		if corr && gi == 0 {
+			o = walkOpt{childEvery: 1, nodeAt: len(at), pathCase: true, shaOracle: true}
+		}
+		walk(seed, (net+gi)%len(nets), append(append([]uint32{}, at...), tail...), o)
+		parsedWalk(seed, (net+gi)%len(nets), at, tail, false, false)
+	}
+	siblings(seed, net, at, []uint32{H + 1, 1, H, 0, 0xffffffff, H - 1}, false)
 }
 
 // nodeCases writes the single-function cases for one key.
@@ -489,7 +798,7 @@ func siblings(seed []byte, net int, prefix []uint32, idx []uint32, corr bool) {
 	if err != nil || n == nil {
 		return
 	}
-	vpriv, vpub := nets[net].HDPrivateKeyID[:], nets[net].HDPublicKeyID[:]
+	vpriv, vpub := vprivOf(net), vpubOf(net)
 	nk, _ := k.Neuter()
 	var hist []uint32
 	for step, i := range idx {
@@ -561,7 +870,7 @@ func pubChain(seed []byte, net int, prefix, path []uint32, corr bool) {
 	if err != nil || n == nil {
 		return
 	}
-	vpub := nets[net].HDPublicKeyID[:]
+	vpub := vpubOf(net)
 	pk, err := k.Neuter()
 	if err != nil {
 		rep.Violate("C04:neuter:conforms", "Neuter failed on a key of a registered network", c.replay(map[string]interface{}{"err": fmt.Sprint(err)}))
@@ -641,13 +950,13 @@ func parsedWalk(seed []byte, net int, prefix, path []uint32, public bool, corr b
 	if err != nil || n == nil {
 		return
 	}
-	ver := nets[net].HDPrivateKeyID[:]
+	ver := vprivOf(net)
 	if public {
 		if k0, err = k0.Neuter(); err != nil {
 			return
 		}
 		n = hdref.Neuter(n)
-		ver = nets[net].HDPublicKeyID[:]
+		ver = vpubOf(net)
 	}
 	extra := map[string]interface{}{"parsed_at": len(prefix), "parsed_public": public,
 		"history": "the key at path[:parsed_at] (neutered if parsed_public) is printed and parsed back with NewKeyFromString; the rest of the path is derived from the parsed object, observing every ancestor object again after every step"}
@@ -760,7 +1069,7 @@ func setNetRun(seed []byte, prefix []uint32, a, b int, idx [3]uint32, corr bool)
 		return
 	}
 	k.SetNet(nets[b])
-	vpriv, vpub := nets[b].HDPrivateKeyID[:], nets[b].HDPublicKeyID[:]
+	vpriv, vpub := vprivOf(b), vpubOf(b)
 	rep.Count("setnet_child", fmt.Sprint("sn", vh.Hex(seed), a, b), a != b)
 	what := map[string]interface{}{"then": "SetNet(" + nets[b].Name + ") on the key at the path, then Child / Neuter / String",
 		"setnet_from": a, "setnet_to": b, "setnet_prefix": prefix, "setnet_children": idx}
@@ -951,7 +1260,7 @@ func vectors() {
 		seed, _ := hex.DecodeString(v.seed)
 		c := ctx{seed: seed, net: 0, path: v.path}
 		n := refDerive(seed, v.path)
-		if n == nil || hdref.String(nil, n, nets[0].HDPrivateKeyID[:]) != v.priv || hdref.String(nil, hdref.Neuter(n), nets[0].HDPublicKeyID[:]) != v.pub {
+		if n == nil || hdref.String(nil, n, vprivOf(0)) != v.priv || hdref.String(nil, hdref.Neuter(n), vpubOf(0)) != v.pub {
 			vh.Must(fmt.Errorf("the reference implementation does not reproduce BIP32 test vector #%d (%s)", vi, pathStr(v.path)))
 		}
 		k, err := derivePriv(seed, 0, v.path)
@@ -1106,24 +1415,30 @@ func main() {
 	if cfg.Replay != "" {
 		var rp struct {
 			Input struct {
-				Seed         string    `json:"seed"`
-				Net          int       `json:"net_index"`
-				Path         []uint32  `json:"path_indices"`
-				Hist         []uint32  `json:"children_derived_from_the_same_object_in_order"`
-				SetNetTo     *int      `json:"setnet_to"`
-				SetNetFrom   int       `json:"setnet_from"`
-				SetNetPrefix []uint32  `json:"setnet_prefix"`
-				SetNetIdx    [3]uint32 `json:"setnet_children"`
-				ParsedAt     *int      `json:"parsed_at"`
-				ParsedPublic bool      `json:"parsed_public"`
-				Then         string    `json:"then"`
+				Seed         string       `json:"seed"`
+				Net          int          `json:"net_index"`
+				Path         []uint32     `json:"path_indices"`
+				Hist         []uint32     `json:"children_derived_from_the_same_object_in_order"`
+				SetNetTo     *int         `json:"setnet_to"`
+				SetNetFrom   int          `json:"setnet_from"`
+				SetNetPrefix []uint32     `json:"setnet_prefix"`
+				SetNetIdx    [3]uint32    `json:"setnet_children"`
+				Explicit     *explicitKey `json:"explicit_key"`
+				Untagged     bool         `json:"untagged_build"`
+				ParsedAt     *int         `json:"parsed_at"`
+				ParsedPublic bool         `json:"parsed_public"`
+				Then         string       `json:"then"`
 			} `json:"input"`
 		}
 		b, err := os.ReadFile(cfg.Replay)
 		vh.Must(err)
 		vh.Must(json.Unmarshal(b, &rp))
 		seed, _ := hex.DecodeString(rp.Input.Seed)
-		if rp.Input.SetNetTo != nil {
+		if rp.Input.Untagged {
+			twin([]twinJob{{Seed: rp.Input.Seed, Net: rp.Input.Net % len(nets), Path: rp.Input.Path}})
+		} else if rp.Input.Explicit != nil {
+			explicitWalk(*rp.Input.Explicit, rp.Input.Net%len(nets), rp.Input.Path, walkOpt{})
+		} else if rp.Input.SetNetTo != nil {
 			setNetRun(seed, rp.Input.SetNetPrefix, rp.Input.SetNetFrom%len(nets), *rp.Input.SetNetTo%len(nets), rp.Input.SetNetIdx, false)
 		} else if rp.Input.ParsedAt != nil && *rp.Input.ParsedAt <= len(rp.Input.Path) {
 			// an ancestor's replay names the ancestor's path only: extend it as the family does (8 more steps)
@@ -1160,6 +1475,7 @@ func main() {
 		return walkOpt{childEvery: ce, nodeEvery: ne, pathCase: pc, shaOracle: sha}
 	}
 
+	checkLinkedNets()
 	vectors()
 
 	// --- seeds of every length 0..70 and some far outside, all six nets
@@ -1333,6 +1649,61 @@ func main() {
 	}
 	rep.Extra["targeted_leading_zero_children_found"] = map[string]int{"one_zero_byte": found1, "two_zero_bytes": found2, "scans": tries}
 
+	// --- targeted: children with THREE or more leading zero bytes (cached indices; thorough / search scan for fresh ones)
+	r = rng.Fork("leadingzero3")
+	found3 := 0
+	for li, e := range lz3 {
+		seed, _ := hex.DecodeString(e.seed)
+		par := refDerive(seed, nil)
+		if par == nil {
+			continue
+		}
+		sc, st, _ := hdref.CKDprivNoPoint(par, e.index)
+		if st != hdref.Valid || sc.BitLen() > 256-8*e.zeros {
+			vh.Must(fmt.Errorf("cached leading-zero child %s/%d does not have %d leading zero bytes under the reference", e.seed, e.index, e.zeros))
+		}
+		found3++
+		rep.Histogram["child_scalar_three_or_more_leading_zero_bytes"]++
+		lz3Walks(seed, li%len(nets), nil, e.index, r, corr && li < 2)
+	}
+	if !quick {
+		scans := 2
+		if cfg.Search {
+			scans = 4
+		}
+		for t := 0; t < scans; t++ {
+			seed := r.Bytes(32)
+			prefix := []uint32{randIndex(r)}
+			par := refDerive(seed, prefix)
+			if par == nil {
+				continue
+			}
+			if i, ok := scanLeadingZero(par, t%2 == 0, r.U32()&0x3fffffff, 232, 60000000); ok {
+				found3++
+				rep.Histogram["child_scalar_three_or_more_leading_zero_bytes"]++
+				lz3Walks(seed, t%len(nets), prefix, i, r, false)
+			}
+		}
+	}
+	rep.Extra["targeted_children_with_three_or_more_leading_zero_bytes"] = found3
+
+	// --- explicit extended private keys: scalars with 1..31 leading zero bytes, boundary scalars, odd chain codes
+	{
+		rounds := 1
+		if cfg.Thorough() {
+			rounds = 4
+		}
+		if cfg.Search {
+			rounds = 20
+		}
+		explicitFamily(rng.Fork("explicit"), rounds, corr)
+		widths := []int{5, 10}
+		if !quick {
+			widths = []int{5, 10, 15, 20}
+		}
+		zeroGroupFamily(rng.Fork("zerogroups"), rounds, widths, corr)
+	}
+
 	// --- chains of PUBLIC derivations (xpub -> child -> grandchild ...), random and deep
 	r = rng.Fork("pubchain")
 	npc := 12
@@ -1407,6 +1778,15 @@ func main() {
 		for b := range nets {
 			setNetThenChild(r, a, b, corr && (a+b)%4 == 1)
 		}
+	}
+
+	// --- the same observations in the build users get (no `verif` tag): cmd/c04/untagged through `go run`
+	{
+		perNet := 1
+		if !quick {
+			perNet = 6
+		}
+		twin(twinJobs(rng.Fork("twin"), perNet))
 	}
 
 	if corr {
